@@ -681,13 +681,15 @@ func trunc(s string, n int) string {
 }
 
 func (e *env) monitorCSV(cs *csvCase, rows []srow, data []byte, status int) {
-	c := e.c
 	rep := func() string { return cs.replay(data, status) }
-	if cs.bom && len(cs.junk) == 0 && !cs.blankJunk && len(cs.header) > 0 && needsQuote(cs.header[0], cs.delim) {
-		// the BOM is stripped AFTER tokenisation: a quoted first header field behind a BOM is not
-		// recognised as quoted, so a delimiter inside it splits the header and every column shifts
-		c.Fail("value-lossy:bom-before-quoted-header", fmt.Sprintf("file starts with a UTF-8 BOM followed by the quoted header field %q; the import was accepted with %d rows but the header was split differently from the data rows (columns misaligned)", cs.header[0], len(rows)), rep())
-		return
+	// the BOM is stripped AFTER tokenisation: a quoted first header field behind a BOM is not
+	// recognised as quoted, so a delimiter inside it splits the header and every column shifts;
+	// whatever the monitors see in such a file is reported under one key
+	bomQuoted := cs.bom && len(cs.junk) == 0 && !cs.blankJunk && len(cs.header) > 0 && needsQuote(cs.header[0], cs.delim)
+	c := &failer{c: e.c, override: ""}
+	if bomQuoted {
+		c.override = "value-lossy:bom-before-quoted-header"
+		c.prefix = fmt.Sprintf("file starts with a UTF-8 BOM followed by the quoted header field %q; accepted, but the header was tokenised differently from the data rows (columns misaligned): ", cs.header[0])
 	}
 	if cs.blankJunk || !cs.delimOK || cs.ridIdx < 0 || cs.timeIdx < 0 {
 		// accepted although the generator expected a rejection: compare counts only
@@ -758,6 +760,21 @@ func (e *env) monitorCSV(cs *csvCase, rows []srow, data []byte, status int) {
 		c.Fail("row-duplicated:csv", fmt.Sprintf("%d rows stored for %d data rows", len(rows), len(cs.rows)), rep())
 	}
 }
+
+// failer forwards to vh.Ctx, optionally re-keying every failure (one root cause, one key).
+type failer struct {
+	c        *vh.Ctx
+	override string
+	prefix   string
+}
+
+func (f *failer) Fail(key, what, replay string) {
+	if f.override != "" {
+		key, what = f.override, f.prefix+what
+	}
+	f.c.Fail(key, what, replay)
+}
+func (f *failer) Tag(t string) { f.c.Tag(t) }
 
 func kindOf(v sval) byte {
 	if v.null {
